@@ -22,9 +22,10 @@ import re
 import common as C
 
 DOMAIN = "__outside_utf8_domain__"
-# class codes computed in Coq (Spec/AuthObs.v): 3 = finding class login_tokens; 9 = outside the stated
-# domain (address or password not valid UTF-8: encoding/json substitutes U+FFFD)
-CLS = {0: None, 3: "login_tokens", 9: DOMAIN}
+# class codes computed in Coq (Spec/AuthObs.v): 0 = none (C04 has no finding class left); 9 = outside the
+# stated domain (address or password not valid UTF-8: encoding/json substitutes U+FFFD)
+CLS = {0: None, 9: DOMAIN}
+FORM = {"Atom": "AtomForm", "Quoted": "QuotedForm"}
 
 DOMAINS = ["example.com", "d.test", "a-b.org"]
 ODD_DOMAINS = ["x", "lo@cal", 'q"d', "b\\s", ""]
@@ -180,9 +181,13 @@ def gen_login(rng, n):
                 u = gen_user(rng, allow_lf=False)
             if rng.random() < 0.15:
                 p = gen_pass(rng, allow_lf=False)
-            if rng.random() < 0.08:
-                u = u + " " + token_str(rng)
+            if rng.random() < 0.3:
+                # quoted strings with blanks (also runs of them), quotes, backslashes, tabs
+                u = rng.choice([u + " " + token_str(rng), "a  b", 'q"uote', "back\\slash", "t\tab", ' lead', 'trail ', '"', "\\", 'x\\"y z'])
                 fu = "Quoted"
+            if rng.random() < 0.3:
+                p = rng.choice([p + " " + token_str(rng), "p  q", 'p"q', "p\\q", '\\"', " ", 'it"s a \\ pass  word'])
+                fp = "Quoted"
             line = "%s LOGIN %s %s\r\n" % (tag, render(fu, u), render(fp, p))
             out.append({"suite": "login", "domain": dom, "tls": tls, "tag": tag, "line": line, "beh": beh, "intended": [fu, fp, u, p]})
         else:
@@ -450,7 +455,7 @@ def observed(c):
 
 def emit(cases):
     """Coq sources evaluating all cases: list of (suite, keys, file body)"""
-    src = C.COQ_CASE_HEADER + "From Raven Require Import Base.GoStrB64 Spec.Json Model.Auth Spec.AuthSpec Spec.AuthObs.\n"
+    src = C.COQ_CASE_HEADER + "From Raven Require Import Base.GoStrB64 Spec.Json Model.CmdTokenizer Model.Auth Spec.CmdArgs Spec.AuthSpec Spec.AuthObs.\n"
     groups = {"direct": [], "ident": [], "login": [], "plain": [], "sasl": [], "race": [], "conc": []}
     skipped = SKIPPED
     for i, c in enumerate(cases):
@@ -513,7 +518,7 @@ def emit(cases):
             init = C.coq_bool(init_ok)
             groups[s].append((i, "(mk_dcase %s %s %s %s %s %s %s)" % (cs(c["domain"]), cs(c["u"]), cs(c["p"]), oc, ens, init, obs)))
         elif s == "login":
-            it = "None" if c["intended"] is None else "(Some (%s, %s, %s, %s))" % (c["intended"][0], c["intended"][1], cs(c["intended"][2]), cs(c["intended"][3]))
+            it = "None" if c["intended"] is None else "(Some (%s, %s, %s, %s))" % (FORM[c["intended"][0]], FORM[c["intended"][1]], cs(c["intended"][2]), cs(c["intended"][3]))
             groups[s].append((i, "(mk_wcase %s %s %s %s %s %s %s)" % (C.coq_bool(c["tls"]), cs(c["domain"]), cs(c["tag"]), cs(c["line"]), oc, it, obs)))
         elif s == "plain":
             it = "None" if c["intended"] is None else "(Some (%s, %s))" % (cs(c["intended"][0]), cs(c["intended"][1]))
